@@ -216,6 +216,7 @@ fn main() -> Result<(), Box<dyn std::error::Error>> {
                 // kill -SIGHUP $(pgrep pgcat)
                 _ = sighup_signal.recv() => {
                     info!("Reloading config");
+                    pgcat::vtrace!("signal", "kind" => "SIGHUP", "admin_only" => admin_only);
 
                     _ = reload_config(client_server_map.clone()).await;
 
@@ -225,6 +226,7 @@ fn main() -> Result<(), Box<dyn std::error::Error>> {
                 // Initiate graceful shutdown sequence on sig int
                 _ = interrupt_signal.recv() => {
                     info!("Got SIGINT");
+                    pgcat::vtrace!("signal", "kind" => "SIGINT", "admin_only" => admin_only);
 
                     // Don't want this to happen more than once
                     if admin_only {
@@ -250,12 +252,15 @@ fn main() -> Result<(), Box<dyn std::error::Error>> {
                         // We're done waiting.
                         error!("Graceful shutdown timed out. {} active clients being closed", total_clients);
 
+                        pgcat::vtrace!("shutdown_timeout", "total" => total_clients);
                         let _ = exit_tx.send(()).await;
                     });
                 },
 
                 _ = term_signal.recv() => {
                     info!("Got SIGTERM, closing with {} clients active", total_clients);
+                    pgcat::vtrace!("signal", "kind" => "SIGTERM", "admin_only" => admin_only);
+                    pgcat::vtrace!("exit", "why" => "sigterm", "total" => total_clients);
                     break;
                 },
 
@@ -268,6 +273,7 @@ fn main() -> Result<(), Box<dyn std::error::Error>> {
                         }
                     };
 
+                    pgcat::vtrace!("accept", "cid" => addr.port(), "admin_only" => admin_only);
                     let shutdown_rx = shutdown_tx.subscribe();
                     let drain_tx = drain_tx.clone();
                     let client_server_map = client_server_map.clone();
@@ -320,14 +326,18 @@ fn main() -> Result<(), Box<dyn std::error::Error>> {
                 }
 
                 _ = exit_rx.recv() => {
+                    pgcat::vtrace!("exit", "why" => "exit_rx", "total" => total_clients);
                     break;
                 }
 
                 client_ping = drain_rx.recv() => {
                     let client_ping = client_ping.unwrap();
+                    pgcat::vdelay!("drain_arm");
                     total_clients += client_ping;
+                    pgcat::vtrace!("drain", "delta" => client_ping, "total" => total_clients, "admin_only" => admin_only);
 
                     if total_clients == 0 && admin_only {
+                        pgcat::vtrace!("drained", "total" => total_clients);
                         let _ = exit_tx.send(()).await;
                     }
                 }
